@@ -405,7 +405,20 @@ func genMaybePayload(t *rapid.T, label string) *node {
 	if rapid.IntRange(0, 2).Draw(t, label+"-present") == 0 {
 		return nil
 	}
-	return genPayload(t, label, 2)
+	p := genPayload(t, label, 2)
+	if rapid.IntRange(0, 3).Draw(t, label+"-declared-form") == 0 {
+		var mark func(n *node)
+		mark = func(n *node) {
+			n.Declared = true
+			for _, k := range n.Kids {
+				if k.El != nil {
+					mark(k.El)
+				}
+			}
+		}
+		mark(p)
+	}
+	return p
 }
 
 // ------------------------------------------------------------------ stanza errors
